@@ -47,6 +47,13 @@ def cases(tier):
     out = []
     keep = lambda d: d["k"] in COMMON
     base = netspace.enumerate_cases(1 if tier == "quick" else 2, keep=keep)
+    if tier == "quick":
+        # named pairs: a pattern needs a pattern-related option to show, a valve needs both unit families etc.
+        NAMED = [{"pat1", "pstart1h"}, {"pat5", "pstart90m"}, {"pat1", "pat30"}, {"pat5", "pat2h"}, {"dem2", "mult2"}, {"pat1", "pdd"},
+                 {"headpat", "pstart1h"}, {"pat5", "clock3h"}, {"hyd30", "pat1"}]
+        names = set().union(*NAMED)
+        base += [s for s in netspace.enumerate_cases(2, keep=lambda d: d["k"] in names, pairs_keep=lambda a, b: {a["k"], b["k"]} in NAMED)
+                 if len(s["id"]["devs"]) == 2]
     for s in base:
         s["opts"]["dur"] = 6 * H
         out.append(s)
@@ -123,12 +130,14 @@ def triggers(s, r, i):
             best = min(best, abs(q) * 500.0)
         elif l["t"] in ("PRV", "PSV", "FCV"):
             pa_, pb_ = float(r.node["pressure"][l["a"]][i]), float(r.node["pressure"][l["b"]][i])
+            # an ACTIVE valve sits on its setting by definition; its status switches when the OTHER side's pressure
+            # reaches the setting (active <-> open) or the head difference changes sign (<-> closed)
             if l["t"] == "PRV":
-                best = min(best, abs(pb_ - l["setting"]), abs(pa_ - l["setting"]), abs(ha - hb))
+                best = min(best, abs(pa_ - l["setting"]), abs(ha - hb))
             elif l["t"] == "PSV":
-                best = min(best, abs(pa_ - l["setting"]), abs(pb_ - l["setting"]), abs(ha - hb))
+                best = min(best, abs(pb_ - l["setting"]), abs(ha - hb))
             else:
-                best = min(best, abs(q - l["setting"]) * 500.0, abs(ha - hb))
+                best = min(best, abs(ha - hb))
     return best
 
 
@@ -207,6 +216,74 @@ def epanet_events(txt, s):
     return warn, limit
 
 
+def epanet_reference(s, units):
+    """leg C reference: the hand-written INP text in `units`, run by EPANET through ctypes, converted to SI with the own
+    unit table; returns (Sim-like object on the report grid, INP text)"""
+    import numpy as np
+    txt = EN.inp_units(s, units)
+    links = [l["n"] for l in s["links"]]
+    nodes = [n["n"] for n in s["nodes"]]
+    steps = EN.run_hydraulics(txt, links=links, nodes=nodes)
+    f = EN.factors(units)
+    rep = s["opts"]["rep"]
+    grid = [st for st in steps if st[0] % rep == 0]
+    out = Sim()
+    out.times = [st[0] for st in grid]
+    out.error = False
+    out.warnings = []
+    out.warn_step = next((int(st[0] // rep) for st in steps if st[1]), None)
+    out.limit_steps = set()
+    for st in steps:
+        for n in s["nodes"]:
+            if n["t"] == "tank":
+                lv = st[3][n["n"]][1] * f["pres"]
+                if lv <= n["min"] + 0.02 or lv >= n["max"] - 0.02:
+                    out.limit_steps.add(int(math.ceil(st[0] / rep)))
+    out.node = {"head": {}, "pressure": {}, "demand": {}}
+    out.link = {"flowrate": {}, "status": {}}
+    for n in s["nodes"]:
+        nm = n["n"]
+        out.node["head"][nm] = np.array([st[3][nm][0] * f["len"] for st in grid])
+        pf = f["len"] if n["t"] == "tank" else f["pres"]        # EPANET reports a tank's 'pressure' in pressure units too
+        out.node["pressure"][nm] = np.array([st[3][nm][1] * f["pres"] for st in grid])
+        out.node["demand"][nm] = np.array([st[3][nm][2] * f["flow"] for st in grid])
+    for l in links:
+        out.link["flowrate"][l] = np.array([st[2][l][1] * f["flow"] for st in grid])
+        out.link["status"][l] = np.array([1.0 if st[2][l][0] >= 1 else 0.0 for st in grid])
+    return out, txt
+
+
+def leg_c(s, units, counts, upto_hint=None):
+    """reading the reference INP text and simulating it must give what EPANET computes for that text"""
+    import wntr, warnings
+    viol = []
+    try:
+        ref, txt = epanet_reference(s, units)
+    except EN.EpanetError as e:
+        counts["C_epanet_refuses"] = counts.get("C_epanet_refuses", 0) + 1
+        return viol
+    pth = "c03_ref_%d.inp" % os.getpid()
+    with open(pth, "w") as fh:
+        fh.write(txt)
+    try:
+        with warnings.catch_warnings():
+            warnings.simplefilter("ignore")
+            wn = wntr.network.read_inpfile(pth)
+    except Exception as e:  # noqa
+        return [{"key": "C:read-fails:%s" % type(e).__name__, "what": "read_inpfile fails on the reference INP text in %s: %s" % (units, str(e)[:120])}]
+    finally:
+        os.unlink(pth)
+    upto = len(ref.times) if ref.warn_step is None else ref.warn_step
+    rw = run_wntr(wn, s)
+    counts["C_runs"] = counts.get("C_runs", 0) + 1
+    if rw.error and len(rw.times) < upto:
+        upto = len(rw.times)        # WNTR's own failures are judged by leg A
+    msg, k = compare(s, rw, ref, "WNTR(read %s)" % units, "EPANET(text %s)" % units, upto, counts, limit_steps=ref.limit_steps)
+    if msg and msg not in ("near-tie", "pdd-band"):
+        viol.append({"key": "C:reader:%s:%s" % (units, _cls(msg)), "what": "%s (deviations %s)" % (msg, devkey(s))})
+    return viol
+
+
 def devkey(s):
     d = s.get("id", {}).get("devs", [])
     return "+".join(sorted(x["k"] + (":" + x["vt"] if "vt" in x else "") for x in d)) or "base"
@@ -239,7 +316,16 @@ def run_case(s):
     if rw.error:
         nsolved = len(rw.times)
         if nsolved < upto:
-            viol.append({"key": "A:wntr-fails:%s:%s" % (s.get("id", {}).get("skel"), _devfull(s) if not back else dk), "what": "EPANET solves %d warning-free report steps but WNTRSimulator stops after %d (%s)" % (upto, nsolved, rw.warnings[:1])})
+            cls = "%s:%s" % (s.get("id", {}).get("skel"), _devfull(s) if not back else dk)
+            w0 = (rw.warnings or [""])[0]
+            # mechanism classes (narrow by cause, not by placement)
+            if nsolved == 0 and "singular" in w0:
+                for l in s["links"]:
+                    if l["t"] in ("PRV", "PSV", "FCV") and l["status"] == "ACTIVE" and len(re_.times) and float(re_.link["status"][l["n"]][0]) != 2.0:
+                        cls = "initial-active-status-infeasible:%s" % l["t"]
+            elif "maximum number of iterations" in w0 and any(l["t"] == "ppump" for l in s["links"]) and not back:
+                cls = "power-pump:newton-iteration-limit"
+            viol.append({"key": "A:wntr-fails:%s" % cls, "what": "EPANET solves %d warning-free report steps but WNTRSimulator stops after %d (%s)" % (upto, nsolved, rw.warnings[:1])})
             upto = nsolved
     if not viol:
         msg, k = compare(s, rw, re_, "WNTR", "EPANET", upto, counts, limit_steps=limit_steps)
@@ -261,6 +347,10 @@ def run_case(s):
         counts["unit_runs"] = counts.get("unit_runs", 0) + 1
         if msg and msg not in ("near-tie", "pdd-band"):
             viol.append({"key": "B:units:%s:%s" % (u, _cls(msg)), "what": "%s (deviations %s)" % (msg, dk)})
+    # ---- leg C: reading an INP text gives what EPANET computes for it (skipped when leg A already differs)
+    if not any(v["key"].startswith("A:") for v in viol):
+        for u in UNITS:
+            viol += leg_c(s, u, counts)
     seen, out = set(), []
     for v in viol:
         if v["key"] not in seen:
